@@ -62,12 +62,24 @@ Definition closed_ok (x : rtask) (b : bool) : bool :=
   | _ => r_declined x
   end.
 
+(* a cancelled subscribing task that had run owes the teardown of what it produced, before
+   unsubscribe() returns *)
+Definition owed (cur : option tlab) (ts : list rtask) : bool :=
+  match cur with
+  | Some (LCancel t) =>
+      match nth_error ts t with
+      | Some x => match r_kind x with RSub => Nat.eqb (r_runs x) 1 && negb (r_inner_unsub x) | _ => false end
+      | None => false
+      end
+  | _ => false
+  end.
+
 Fixpoint raw_walk (ls : list tlab) (now : N) (ts : list rtask) (cur : option tlab) (out : list tout) : bool :=
   match out with
-  | [] => true
+  | [] => negb (owed cur ts)
   | TMark j :: r =>
       let l := nth_error ls j in
-      let '(now', ts') := raw_label now ts l in raw_walk ls now' ts' l r
+      let '(now', ts') := raw_label now ts l in negb (owed cur ts) && raw_walk ls now' ts' l r
   | TRan t seq at_time :: r =>
       match nth_error ts t with
       | Some x => ran_ok now x seq at_time && raw_walk ls now (set_nth ts t (ran_upd x seq at_time)) cur r
@@ -259,6 +271,24 @@ Definition subseq_ok (ls : list tlab) (out : list tout) : bool :=
   | None => false
   end.
 
+(* on completion the last input item has been delivered, as the last item (debounce, throttle with
+   a trailing edge: the pending item is flushed before the completion is forwarded) *)
+Definition completed_out (out : list tout) : bool :=
+  existsb (fun x => match x with TOut _ Done => true | _ => false end) out.
+
+Definition final_item_ok (ls : list tlab) (out : list tout) : bool :=
+  match walk (collect_step ls) (w0 true, []) out with
+  | Some (w, items) =>
+      if completed_out out then
+        match rev (src_items w), rev items with
+        | [], _ => true
+        | v :: _, x :: _ => val_eqb x v
+        | _ :: _, [] => false
+        end
+      else true
+  | None => false
+  end.
+
 (* buffers: never empty, never above the count limit, their concatenation a prefix of the input,
    and the whole input once the output has completed *)
 Fixpoint is_prefix (a b : list val) : bool :=
@@ -309,7 +339,8 @@ Definition timed_ok (o : top) (ls : list tlab) (out : list tout) : bool :=
   | TObserveOn => relay_ok 0 false ls out
   | TDelaySubscription d => passthru_ok d ls out
   | TSubscribeOn => passthru_ok 0 ls out
-  | TDebounce _ | TThrottle _ _ => subseq_ok ls out
+  | TDebounce _ => subseq_ok ls out && final_item_ok ls out
+  | TThrottle _ ed => subseq_ok ls out && match ed with ELeading => true | _ => final_item_ok ls out end
   | TBufferTime _ => buffers_ok None ls out
   | TBufferCountTime n _ => buffers_ok (Some n) ls out
   | TInterval p => interval_ok p p ls out
